@@ -1,6 +1,7 @@
 package c06
 
 import (
+	"encoding/json"
 	"fmt"
 	"os"
 	"strings"
@@ -208,6 +209,13 @@ func TestReplay(t *testing.T) {
 	buf, err := os.ReadFile(path)
 	if err != nil {
 		t.Fatal(err)
+	}
+	if strings.HasSuffix(path, ".json") {
+		var c recoveredCase
+		if json.Unmarshal(buf, &c) == nil && c.Agg != nil {
+			judgeRecovered(t, "Replay", c)
+		}
+		return
 	}
 	// without the abstract model only the internal agreement (parser cache == IR recomputation) and LLVM's verdict can be replayed
 	x := string(buf)
